@@ -1001,3 +1001,115 @@ Example ex_low_not_dir :
   readdir_state_init (mkRd 9 1000 17 400 7 55) api_sb (mkInode [c_SQFS_INODE_FIFO; 4096 + 420; 0; 0; 0; 1] [1] [])
   = (Err c_SQFS_ERROR_NOT_DIR, mkRd 0 0 0 0 0 0).
 Proof. vm_compute. reflexivity. Qed.
+
+(* ======================================================================================================
+   Strengthening, session 3 (seed C10-10): the reader caches are keyed by the COMPLETE block descriptor.
+   coq/C10/CacheKeyModel.v: the two caches of data_reader.c with the key as a parameter (what of the
+   location / of the size word / of the fragment index is compared); with the identity projections they are
+   the model of the code (precache_data fx=true, precache_frag).
+   ====================================================================================================== *)
+From SqfsV Require Import C10.CacheKeyModel C10.CacheKeyProofs.
+
+(* after ANY history of calls from creation, a request of the data-block cache for the descriptor (loc, w)
+   -- hit or miss -- answers with the status of a fresh get_block(loc, w) and leaves that block's bytes in the
+   buffer; a request of the fragment cache for index idx answers like a fresh table lookup + get_block *)
+Theorem cache_key_complete :
+  forall (uncompress : list N -> N -> uresult) (file : N -> N -> rd_res) (fsize bs : N) (ops : list DataModel.dop) (loc w idx : N),
+  let d := snd (DataModel.drun uncompress file fsize bs true DataModel.dr_create ops) in
+  (fst (precache_data uncompress file bs true d loc w) = to_unit (get_block uncompress file loc w bs) /\
+   forall b, get_block uncompress file loc w bs = Ok b ->
+             blk_buf (snd (precache_data uncompress file bs true d loc w)) = fst b) /\
+  (fst (precache_frag uncompress file bs d idx) = to_unit (frag_lookup uncompress file bs (d_tbl d) idx) /\
+   forall b, frag_lookup uncompress file bs (d_tbl d) idx = Ok b ->
+             frag_buf (snd (precache_frag uncompress file bs d idx)) = b).
+Proof. exact cache_key_complete_l. Qed.
+Print Assumptions cache_key_complete.
+
+(* the same for every key that determines the descriptor, on every coherent reader state *)
+Theorem data_cache_key_complete_general :
+  forall (uncompress : list N -> N -> uresult) (file : N -> N -> rd_res) (bs : N) (kl kw : N -> N),
+  (forall a b, kl a = kl b -> a = b) -> (forall a b, kw a = kw b -> a = b) ->
+  forall d loc w r d', dcoherent uncompress file bs d ->
+  precache_data_k uncompress file bs kl kw d loc w = (r, d') ->
+  r = to_unit (get_block uncompress file loc w bs) /\ dcoherent uncompress file bs d' /\ d_tbl d' = d_tbl d /\
+  (forall b, get_block uncompress file loc w bs = Ok b -> blk_buf d' = fst b).
+Proof. exact data_key_complete_l. Qed.
+Print Assumptions data_cache_key_complete_general.
+
+Theorem frag_cache_key_complete_general :
+  forall (uncompress : list N -> N -> uresult) (file : N -> N -> rd_res) (bs : N) (kf : list (N * N) -> N -> N),
+  (forall t a b, kf t a = kf t b -> a = b) ->
+  forall d idx r d', dcoherent uncompress file bs d ->
+  precache_frag_k uncompress file bs kf d idx = (r, d') ->
+  r = to_unit (frag_lookup uncompress file bs (d_tbl d) idx) /\ dcoherent uncompress file bs d' /\ d_tbl d' = d_tbl d /\
+  (forall b, frag_lookup uncompress file bs (d_tbl d) idx = Ok b -> frag_buf d' = b).
+Proof. exact frag_key_complete_l. Qed.
+Print Assumptions frag_cache_key_complete_general.
+
+(* the parameterised caches with the complete keys are the model of the code; the keys meet the hypotheses *)
+Example ex_cache_key_is_model :
+  forall uncompress file bs d loc w idx,
+  precache_data_k uncompress file bs key_id key_id d loc w = precache_data uncompress file bs true d loc w /\
+  precache_frag_k uncompress file bs fkey_index d idx = precache_frag uncompress file bs d idx.
+Proof. intros. split; reflexivity. Qed.
+Example ex_key_id_injective : forall a b, key_id a = key_id b -> a = b.
+Proof. exact key_id_injective. Qed.
+Example ex_fkey_index_injective : forall (t : list (N * N)) a b, fkey_index t a = fkey_index t b -> a = b.
+Proof. exact fkey_index_injective. Qed.
+
+(* a key that drops a part of the descriptor violates the statement (the seeded change and its siblings,
+   modelled faithfully): without the flag, without the on-disk size, without the location; fragment cache keyed
+   by the start of the entry, by start and on-disk size *)
+Theorem cache_key_without_flag_refuted :
+  exists img bs loc w1 w2,
+    let d1 := snd (precache_data_k ck_codec (read_at img) bs key_id on_disk DataModel.dr_create loc w1) in
+    dcoherent ck_codec (read_at img) bs d1 /\
+    fst (precache_data_k ck_codec (read_at img) bs key_id on_disk d1 loc w2)
+      <> to_unit (get_block ck_codec (read_at img) loc w2 bs).
+Proof. exact key_without_flag_refuted_l. Qed.
+Print Assumptions cache_key_without_flag_refuted.
+
+Theorem cache_key_without_size_refuted :
+  exists img bs loc w1 w2 b,
+    let d1 := snd (precache_data_k ck_codec (read_at img) bs key_id key_flag_only DataModel.dr_create loc w1) in
+    get_block ck_codec (read_at img) loc w2 bs = Ok b /\
+    blk_buf (snd (precache_data_k ck_codec (read_at img) bs key_id key_flag_only d1 loc w2)) <> fst b.
+Proof. exact key_without_size_refuted_l. Qed.
+
+Theorem cache_key_without_location_refuted :
+  exists img bs l1 l2 w b,
+    let d1 := snd (precache_data_k ck_codec (read_at img) bs key_none key_id DataModel.dr_create l1 w) in
+    get_block ck_codec (read_at img) l2 w bs = Ok b /\
+    blk_buf (snd (precache_data_k ck_codec (read_at img) bs key_none key_id d1 l2 w)) <> fst b.
+Proof. exact key_without_location_refuted_l. Qed.
+
+Theorem frag_cache_key_start_refuted :
+  exists img bs tbl i j b,
+    let d0 := DataModel.mkDr tbl None None in
+    let d1 := snd (precache_frag_k ck_codec (read_at img) bs fkey_start d0 i) in
+    frag_lookup ck_codec (read_at img) bs tbl j = Ok b /\
+    frag_buf (snd (precache_frag_k ck_codec (read_at img) bs fkey_start d1 j)) <> b.
+Proof. exact frag_key_start_refuted_l. Qed.
+
+Theorem frag_cache_key_start_size_refuted :
+  exists img bs tbl i j,
+    let d0 := DataModel.mkDr tbl None None in
+    let d1 := snd (precache_frag_k ck_codec (read_at img) bs fkey_start_size d0 i) in
+    fst (precache_frag_k ck_codec (read_at img) bs fkey_start_size d1 j)
+      <> to_unit (frag_lookup ck_codec (read_at img) bs tbl j).
+Proof. exact frag_key_start_size_refuted_l. Qed.
+Print Assumptions frag_cache_key_start_size_refuted.
+
+(* the complete keys on the inputs of the witnesses: raw 2 bytes, then the same location as a compressed block
+   (error of the codec) and as 4 raw bytes; three fragment entries with one start *)
+Example ex_cache_key_complete_flag :
+  let d1 := snd (precache_data ck_codec (read_at ck_img) 4 true DataModel.dr_create 0 (ck_flag + 2)) in
+  fst (precache_data ck_codec (read_at ck_img) 4 true d1 0 2) = Err 0%Z /\
+  blk_buf (snd (precache_data ck_codec (read_at ck_img) 4 true d1 0 (ck_flag + 4))) = [10; 11; 12; 13].
+Proof. vm_compute. split; reflexivity. Qed.
+Example ex_frag_cache_key_complete :
+  let d1 := snd (precache_frag ck_codec (read_at ck_img) 4 (DataModel.mkDr ck_tbl None None) 0) in
+  frag_buf d1 = ([10; 11; 0; 0], 2) /\
+  frag_buf (snd (precache_frag ck_codec (read_at ck_img) 4 d1 1)) = ([10; 11; 12; 13], 4) /\
+  fst (precache_frag ck_codec (read_at ck_img) 4 d1 2) = Err 0%Z.
+Proof. vm_compute. repeat split; reflexivity. Qed.
